@@ -289,3 +289,16 @@ Theorem model_is_of_current_source_3 :
   Gen.C02.creator_bound_deposit = true /\ Gen.C02.creator_bound_batch = true /\ Gen.C02.creator_bound_sale = true.
 Proof. exact source_facts3. Qed.
 Print Assumptions model_is_of_current_source_3.
+
+(** Last round: the deposit handler's outcome does not depend on the size of the amount (any [Z]; the
+    harness drives 2^63-1, 2^63, 2^64, 2^128, 2^200, 2^255 through the real handler), and the source
+    converts no claim amount with a partial conversion on the handler path. *)
+Theorem deposit_applicable_for_every_amount : forall (s : state) (c : claim) (amt : Z),
+  c_kind c = 0 ->
+  applicable s (mkClaim (c_nonce c) (c_h c) (c_height c) (c_compass c) 0 (c_rcv c) amt (c_tok c)) = applicable s c.
+Proof. exact applicable_any_amount. Qed.
+Print Assumptions deposit_applicable_for_every_amount.
+
+Theorem model_is_of_current_source_4 : Gen.C02.handler_amount_partial_conversions = 0.
+Proof. exact source_facts4. Qed.
+Print Assumptions model_is_of_current_source_4.
